@@ -2,7 +2,7 @@
 # confirm_wave.sh <suffix> <ids...>: confirms variants c and d of each /tmp/mut/<id><suffix> worktree (sequential per worktree, worktrees in parallel)
 sfx=$1; shift
 for p in "$@"; do
-  ( for v in c d; do
+  ( for v in ${VARIANTS:-c d}; do
       [ -f /tmp/mut/${p}${sfx}/_out/$v/patch.diff ] || continue
       python3 /verif/tools/confirm_mutant.py /tmp/mut/${p}${sfx} $v > /tmp/mut/${p}${sfx}/_out/$v/confirm.log 2>&1
     done; echo done $p ) &
